@@ -1,6 +1,6 @@
 (* Lemmas about Model/Cross.v *)
 From Coq Require Import List Arith Lia PeanoNat Bool.
-From TV Require Import Num.Ops Lin.Tab Model.Cross.
+From TV Require Import Num.Ops Lin.Tab Model.Cross Proofs.CrossIdx Proofs.CrossGeo.
 Import ListNotations.
 
 Section CrossArgs.
@@ -41,5 +41,31 @@ Proof.
     try (left; congruence); try (right; left; congruence); try (right; right; left; congruence);
     try (right; right; right; split; congruence);
     destruct (s_pc _); congruence.
+Qed.
+
+Notation stepm := (step K isinf f cb pones pdotL pdotR pvals pick pcoreG pfacR erank accuracy accdata C).
+Notation runm := (run K isinf f cb pones pdotL pdotR pvals pick pcoreG pfacR erank accuracy accdata C).
+
+Lemma iterate_add {A} (g : A -> A) a b x : iterate g (a + b) x = iterate g b (iterate g a x).
+Proof. revert x; induction a; intros x; simpl; auto. Qed.
+Lemma iterate_iterate {A} (g : A -> A) n k x : iterate (iterate g n) k x = iterate g (k * n) x.
+Proof. revert x; induction k; intros x; cbn [iterate Nat.mul]; auto. rewrite IHk, iterate_add. reflexivity. Qed.
+Lemma run_as_steps fuel : runm fuel = iterate stepm (2 * d C + fuel * (2 * d C)) (init K pones erank C).
+Proof.
+  unfold run, pre_done, sweep. generalize (2 * d C) as n. intros n.
+  rewrite iterate_iterate, iterate_add. reflexivity.
+Qed.
+
+(* every exit returns a well-formed tensor of the original shape *)
+Lemma interrupted_wf fuel s :
+  Y0_ok pones C -> pick_ok pick -> crossm fuel = Ok s -> tt_wf pones C (sY s).
+Proof.
+  intros HY Hp. unfold cross_m. destruct (args_ok C); [|discriminate].
+  rewrite run_as_steps. set (k := 2 * d C + fuel * (2 * d C)).
+  pose proof (iterate_inv stepm (Geo pones C)
+                (geo_step K isinf f cb pones pdotL pdotR pvals pick pcoreG pfacR erank accuracy accdata C HY Hp)
+                k _ (geo_init K pones erank C HY)) as G.
+  destruct (s_pc (iterate stepm k (init K pones erank C))) eqn:Epc; [discriminate|].
+  intros H; injection H as <-. destruct G as (_ & _ & _ & _ & G). rewrite Epc in G. exact G.
 Qed.
 End CrossArgs.
